@@ -2022,7 +2022,12 @@ func (bc *Blockchain) storeBlock(block *block.Block, txpool *mempool.Pool) error
 		appExecResults = make([]*state.AppExecResult, 0, 2+len(block.Transactions))
 		aerchan        = make(chan *state.AppExecResult, len(block.Transactions)/8) // Tested 8 and 4 with no practical difference, but feel free to test more and tune.
 		aerdone        = make(chan error)
+
+		oldFeePerByte, oldBaseExecFee int64
 	)
+	if block.Index > 0 {
+		oldFeePerByte, oldBaseExecFee = bc.FeePerByte(), bc.GetBaseExecFee()
+	}
 	go func() {
 		var (
 			kvcache      = aerCache
@@ -2194,7 +2199,12 @@ func (bc *Blockchain) storeBlock(block *block.Block, txpool *mempool.Pool) error
 	bc.stateRoot.UpdateCurrentLocal(mpt, sr)
 	bc.topBlock.Store(block)
 	atomic.StoreUint32(&bc.blockHeight, block.Index)
-	bc.memPool.RemoveStale(func(tx *transaction.Transaction) bool { return bc.IsTxStillRelevant(tx, txpool, false) }, bc)
+	// Pooled transactions are not verified again when they come in a block, so
+	// if the fees they were verified with have changed, they are to be rechecked.
+	feesChanged := block.Index > 0 && (bc.FeePerByte() != oldFeePerByte || bc.GetBaseExecFee() != oldBaseExecFee)
+	bc.memPool.RemoveStale(func(tx *transaction.Transaction) bool {
+		return bc.IsTxStillRelevant(tx, txpool, false) && (!feesChanged || bc.verifyTxNetworkFee(tx) == nil)
+	}, bc)
 	for _, f := range bc.postBlock {
 		f(bc.IsTxStillRelevant, txpool, block)
 	}
@@ -3516,6 +3526,16 @@ func (bc *Blockchain) verifyTxWitnesses(t *transaction.Transaction, block *block
 	}
 
 	return nil
+}
+
+// verifyTxNetworkFee checks that the network fee of the transaction covers its
+// size, attributes and witnesses verification with the current Policy values.
+func (bc *Blockchain) verifyTxNetworkFee(t *transaction.Transaction) error {
+	netFee := t.NetworkFee - int64(t.Size())*bc.FeePerByte() - bc.CalculateAttributesFee(t)
+	if netFee < 0 {
+		return ErrTxSmallNetworkFee
+	}
+	return bc.verifyTxWitnesses(t, nil, false, netFee)
 }
 
 // verifyHeaderWitnesses is a block-specific implementation of VerifyWitnesses logic.
